@@ -140,7 +140,7 @@ class Sim(object):
         self.trm = trm
         self.classes = {}
         self.twins = {}
-        for cname, cspec in case['classes'].items():
+        for cname, cspec in sorted(case['classes'].items(), key=lambda kv: (kv[1].get('base') is not None, kv[0])):
             self.classes[cname] = self.build_class(cname, cspec, True)
             self.twins[cname] = self.build_class(cname + 'Twin', cspec, False)
 
@@ -174,7 +174,7 @@ class Sim(object):
         rnd = self.tr._random
         self.tr = TapeRecorder(self.spy)
         self.tr._random = rnd
-        for cname, cspec in self.case['classes'].items():
+        for cname, cspec in sorted(self.case['classes'].items(), key=lambda kv: (kv[1].get('base') is not None, kv[0])):
             self.classes[cname] = self.build_class(cname, cspec, True)
 
     def close(self):
@@ -345,6 +345,17 @@ class Sim(object):
             def restore_output_from_recording(self, recorded_data):
                 return recorded_data
 
+        if cspec.get('base') is not None:
+            # a subclass that INHERITS the decorated operation and interceptions of its base class
+            base = (self.classes if decorated else self.twins)[cspec['base'] + ('' if decorated else 'Twin')] \
+                if False else (self.classes[cspec['base']] if decorated else self.twins[cspec['base']])
+            cls = dyn.register(type(str(cname), (base,), {}))
+            if decorated and cspec.get('params') is not None:
+                p = cspec['params']
+                tr.recording_params(RecordingParameters(
+                    sampling_rate=float(p['rate'][0]) / float(p['rate'][1]), ignore_enforced_sampling=p['ignore'],
+                    skipped=p['skipped'], copy_data_on_intercepion=p['copy']))(cls)
+            return cls
         ns = {}
         for sname, sp in self.case['sites'].items():
             flavor = sp.get('flavor', 'instance')
